@@ -134,3 +134,14 @@ Theorem C05_generated_next_step_settled_is_the_model : forall st s i, (1 <= dept
   end.
 Proof. exact tie_next_step_settled. Qed.
 Print Assumptions C05_generated_next_step_settled_is_the_model.
+
+(* known finding F21 as a theorem about the model: for simulators in DIFFERENT groups the progress statement above is false when
+   lazy stepping is on.  The witness is the scenario of corpus/findings/F21.json (Sched/F21.v: a weak same-time loop inside a group
+   whose second iteration triggers a simulator outside the group): a reachable state in which nothing is in flight, a simulator is
+   not done, and no START, BEGIN or loop-guard abort is accepted.  Replayed on the implementation, the same schedule deadlocks. *)
+From MV Require Sched.F21.
+Theorem C05_progress_across_groups_refuted :
+  exists st s, lazy st = true /\ reached st s /\ Quiet s /\ (exists i, (i < nsims st)%nat /\ pc (s i) <> Done) /\
+               forall e, scheduler_move st e -> exists er, apply st s e = Err er.
+Proof. exact Sched.F21.progress_across_groups_with_lazy_stepping_refuted. Qed.
+Print Assumptions C05_progress_across_groups_refuted.
